@@ -11,6 +11,7 @@ import (
 	"time"
 
 	"github.com/sharedcode/sop"
+	"github.com/sharedcode/sop/cache"
 	"github.com/sharedcode/sop/common"
 
 	"verifharness/commitx"
@@ -79,11 +80,18 @@ func emitNode(s *hx.Session, header, lid, initImg string, evs []ev) {
 	installs := 0
 	staged := map[int]string{} // txn -> reserved inactive id
 	flipped := map[int]bool{}
+	basedOn := map[string]int{} // version an install was based on -> installing transaction
 	line := func() string { return fmt.Sprintf("%s holder=%s installs=%d", cur, holder, installs) }
 	for _, e := range evs {
 		l := e.line
 		t := e.txn
 		switch {
+		case l == "FREE":
+			s.Op("free", "ok")
+		case l == "LOSE":
+			holder = "-"
+			s.Op("lose", line())
+			s.Hit("lock_lost")
 		case strings.HasPrefix(l, "l2.Lock ") || strings.HasPrefix(l, "l2.DualLock "):
 			if !hasKey(l, lid) {
 				continue
@@ -130,6 +138,15 @@ func emitNode(s *hx.Session, header, lid, initImg string, evs []ev) {
 			if f[6] == "1" && f[5] == "0" {
 				continue // a removed node's final image: not the update protocol
 			}
+			base := "?"
+			if v, err := strconv.Atoi(f[4]); err == nil {
+				base = strconv.Itoa(v - 1)
+			}
+			if other, ok := basedOn[base]; ok && other != t {
+				s.Fail("C37/two-successors-of-one-version", "two transactions both installed their own successor of the same version of a node",
+					fmt.Sprintf("lid %s version %s: installed by transaction %d and by transaction %d; image before the second install %s, after %s", lid, base, other, t, cur, img))
+			}
+			basedOn[base] = t
 			cur = img
 			installs++
 			flipped[t] = true
@@ -159,6 +176,11 @@ func emitNode(s *hx.Session, header, lid, initImg string, evs []ev) {
 				cur = img
 				installs--
 				flipped[t] = false
+				for k, v := range basedOn {
+					if v == t {
+						delete(basedOn, k)
+					}
+				}
 				s.Op(fmt.Sprintf("restore %d", t), line())
 				s.Hit("restore")
 			case inactive != "0" && f[5] == "t":
@@ -170,6 +192,15 @@ func emitNode(s *hx.Session, header, lid, initImg string, evs []ev) {
 				s.Hit("reserve")
 			default:
 				// undo of a reservation (or a no-op clear); registry.Update takes the node's lock itself
+				if pf := strings.Split(cur, ":"); len(pf) == 7 {
+					pin := pf[2]
+					if pf[3] == "1" {
+						pin = pf[1]
+					}
+					if pin != "0" && staged[t] != pin {
+						s.Hit("undo_of_foreign_reservation")
+					}
+				}
 				if withLock {
 					s.Op(fmt.Sprintf("lock %d", t), fmt.Sprintf("%s holder=%d installs=%d", cur, t, installs))
 				}
@@ -262,6 +293,14 @@ func run(o hx.RunOpts) error {
 			return err
 		}
 	}
+	// ---- (C) the reservation as a claim: T1 finishes phase 1 and is parked before its flip, the lock service loses
+	// every lock (cache restart), T2 - based on the same version - tries to commit, T1 is released
+	nloss := o.N(4, 24)
+	for i := 0; i < nloss; i++ {
+		if err := lockLossCase(ctx, s, p.Fork(), i); err != nil {
+			return err
+		}
+	}
 	return s.Finish()
 }
 
@@ -304,6 +343,180 @@ func retryWS(ob *commitx.Obs) []common.VerifNode {
 		return nil
 	}
 	return ob.Retry.WriteSet
+}
+
+// lockLossCase: T1 and T2 both update the same key (both read the node at the same version). T1 runs phase 1 and is
+// parked before its flip (its second registry.UpdateNoLocks); then the L2 cache is cleared (every lock and lock record
+// is gone: a cache restart); T2 commits (bounded by its maxTime); T1 is released. The model runs the same events
+// with the lock discipline off: T1's reservation alone must keep T2 out.
+func lockLossCase(ctx context.Context, s *hx.Session, p *hx.Prng, n int) error {
+	dir, err := os.MkdirTemp(hx.WorkRoot(), "c37l-")
+	if err != nil {
+		return err
+	}
+	defer os.RemoveAll(dir)
+	e := txk.NewEnv(dir, 3)
+	e.ColdRestart()
+	slot := []int{2, 4, 8}[p.Intn(3)]
+	t0, err := e.NewTxn(ctx, sop.ForWriting, time.Minute, nil)
+	if err != nil {
+		return err
+	}
+	t0.T.Begin(ctx)
+	b0, err := txk.NewBtree[int, string](ctx, t0, e.StoreOpts("st0", slot, true))
+	if err != nil {
+		return err
+	}
+	nitems := 3 + p.Intn(8)
+	for k := 0; k < nitems; k++ {
+		b0.Add(ctx, k*10, "v")
+	}
+	if err := t0.T.Commit(ctx); err != nil {
+		return err
+	}
+	pre, err := commitx.ReadDisk(dir)
+	if err != nil {
+		return err
+	}
+	key := p.Intn(nitems) * 10
+	sc1, sc2 := txk.NewScript(e.Canon), txk.NewScript(e.Canon)
+	mk := func(sc *txk.Script, val string, maxTime time.Duration) (*txk.Txn, error) {
+		t, err := e.NewTxn(ctx, sop.ForWriting, maxTime, sc)
+		if err != nil {
+			return nil, err
+		}
+		if err := t.T.Begin(ctx); err != nil {
+			return nil, err
+		}
+		b, err := txk.OpenBtree[int, string](ctx, t, "st0")
+		if err != nil {
+			return nil, err
+		}
+		if ok, err := b.Update(ctx, key, val); err != nil || !ok {
+			return nil, fmt.Errorf("update failed: %v %v", ok, err)
+		}
+		return t, nil
+	}
+	t1, err := mk(sc1, "one", 30*time.Second)
+	if err != nil {
+		return err
+	}
+	t2, err := mk(sc2, "two", time.Duration(1500+p.Intn(1500))*time.Millisecond)
+	if err != nil {
+		return err
+	}
+	ws1 := common.VerifWriteSet(t1.P)
+	ws2 := common.VerifWriteSet(t2.P)
+	for _, nd := range append(append([]common.VerifNode{}, ws1...), ws2...) {
+		e.Canon.ID(nd.ID)
+	}
+	start1, start2 := sc1.N()+1, sc2.N()+1
+	release := make(chan struct{})
+	parked := make(chan struct{}, 1)
+	nUpd := 0
+	sc1.Gate = func(idx int, name string) {
+		if idx >= start1 && name == "reg.UpdateNoLocks" {
+			nUpd++
+			if nUpd == 2 {
+				parked <- struct{}{}
+				<-release
+			}
+		}
+	}
+	var err1, err2 error
+	done1 := make(chan struct{})
+	go func() { defer func() { recover() }(); err1 = t1.T.Commit(ctx); close(done1) }()
+	select {
+	case <-parked:
+	case <-done1:
+		s.Hit("loss_t1_not_parked")
+		return nil
+	case <-time.After(20 * time.Second):
+		close(release)
+		<-done1
+		return fmt.Errorf("lockLossCase: T1 neither parked nor finished")
+	}
+	e.L2.Clear(ctx)
+	if !cache.VerifLoseLocks(e.L2) {
+		return fmt.Errorf("lockLossCase: the L2 cache is not the in-memory one")
+	}
+	lossSeq := txk.NextSeq()
+	done2 := make(chan struct{})
+	go func() { defer func() { recover() }(); err2 = t2.T.Commit(ctx); close(done2) }()
+	select {
+	case <-done2:
+	case <-time.After(25 * time.Second):
+		s.Hit("loss_t2_still_running")
+	}
+	close(release)
+	<-done1
+	<-done2
+	s.Hit("loss")
+	if err1 == nil {
+		s.Hit("loss_t1_ok")
+	}
+	if err2 == nil {
+		s.Hit("loss_t2_ok")
+	}
+	type sev struct {
+		seq int64
+		e   ev
+	}
+	all := []sev{{0, ev{0, "FREE", true}}, {lossSeq, ev{0, "LOSE", true}}}
+	for _, c := range sc1.Calls {
+		if c.Idx >= start1 {
+			all = append(all, sev{c.Seq, ev{0, strings.TrimSuffix(c.String(), " !err"), !c.Err}})
+		}
+	}
+	for _, c := range sc2.Calls {
+		if c.Idx >= start2 {
+			all = append(all, sev{c.Seq, ev{1, strings.TrimSuffix(c.String(), " !err"), !c.Err}})
+		}
+	}
+	sort.SliceStable(all, func(i, j int) bool { return all[i].seq < all[j].seq })
+	evs := make([]ev, len(all))
+	for i := range all {
+		evs[i] = all[i].e
+	}
+	seen := map[string]bool{}
+	for _, lid := range updatedLids(e, append(append([]common.VerifNode{}, ws1...), ws2...)) {
+		if seen[lid] {
+			continue
+		}
+		seen[lid] = true
+		var init string
+		for _, nd := range append(append([]common.VerifNode{}, ws1...), ws2...) {
+			if e.Canon.ID(nd.ID) == lid {
+				if h, ok := pre.Find(nd.ID); ok {
+					init = e.Canon.Handle(h)
+				}
+			}
+		}
+		if init != "" {
+			emitNode(s, fmt.Sprintf("lockloss slot=%d items=%d", slot, nitems), lid, init, evs)
+		}
+	}
+	// outcome: the key holds the value of a writer that committed, and every node still loads
+	d, rerr := commitx.ReadAll(ctx, e)
+	if rerr != nil {
+		s.Fail("C37/store-unreadable-after-lock-loss", "after a lock loss between T1's phase 1 and phase 2 the store cannot be read (a node points at missing data)", rerr.Error())
+		return nil
+	}
+	val := ""
+	for _, it := range d["st0"].Items {
+		if strings.HasPrefix(it, fmt.Sprintf("%d=", key)) {
+			val = strings.SplitN(it, "=", 2)[1]
+		}
+	}
+	switch {
+	case err1 == nil && err2 != nil && val != "one":
+		s.Fail("C37/committed-value-missing", "T1 committed alone but its value is not there", val)
+	case err1 != nil && err2 == nil && val != "two":
+		s.Fail("C37/committed-value-missing", "T2 committed alone but its value is not there", val)
+	case err1 == nil && err2 == nil && val != "one" && val != "two":
+		s.Fail("C37/both-committed-value-lost", "both writers committed but the key holds neither value", val)
+	}
+	return nil
 }
 
 // pairCase: a store with a few items; T1 and T2 both update the value of the same key, so both want to install a
